@@ -25,7 +25,7 @@ demo() {
   HDRS=$(ls "$SRC"/*.h 2>/dev/null)
   # libmpt++ goes in FRONT of libmptcore: its creator overrides (mpt_meta_new, mpt_node_new) work by link order
   LIBS=""
-  if grep -q "mpt++\|io.h\|namespace mpt\|mpt::" "$DEMO"; then LIBS="$CXX $PLOT $IO"; fi
+  if grep -q "mpt++\|\"io.h\"\|namespace mpt\|mpt::" "$DEMO"; then LIBS="$CXX $PLOT $IO"; fi
   if grep -q "values.h\|layout.h\|history.h\|mpt_output_bind\|mpt_mapping" "$DEMO" $HDRS 2>/dev/null; then LIBS="$LIBS $PLOT $IO"; fi
   if grep -q "stream.h\|mptio\|connection.h\|notify.h" "$DEMO" $HDRS 2>/dev/null; then LIBS="$LIBS $IO"; fi
   LIBS="$LIBS $CORE -rdynamic"
